@@ -576,9 +576,15 @@ func c13RerunOther(r *rand.Rand, g *DocGen, kind string) c13Rerun {
 			cs.Spec["path"] = "/{{ .pk }}"
 			special = append(special, c13RStep{Do: "put", Path: "pk", Value: c13Leaf(pick(r, g.Keys))}, c13RStep{Do: "remove", Path: "pk"})
 		}
-		switch r.Intn(3) {
-		case 0: // a leaf value (a composite value is held by the operation object and is placed as it is; see the Assumptions)
+		switch r.Intn(4) {
+		case 0: // a leaf value
 			cs.Spec["value"] = pick(r, []any{"v", 7, true, "", "x y"})
+		case 1: // a composite value: every execution must place a value of its own (D30: the operation's node itself was placed)
+			if r.Intn(2) == 0 {
+				cs.Spec["value"] = plainPayload()
+			} else {
+				cs.Spec["value"] = []any{plainPayload(), pick(r, []any{"v", 7, nil})}
+			}
 		default:
 			cs.Spec["valueFrom"] = c13Target(r, g, data)
 			if conts := c13ContPaths(data); len(conts) > 0 && r.Intn(2) == 0 {
